@@ -55,12 +55,22 @@ func RunLint(c *core.Ctx, files map[string]string, o LintOpts) LintResult {
 	return RunLintIn(c, dir, files, o)
 }
 
+// SymlinkPrefix marks a value of the files map as the target of a symbolic link to create.
+const SymlinkPrefix = "\x00symlink:"
+
 func RunLintIn(c *core.Ctx, dir string, files map[string]string, o LintOpts) LintResult {
 	res := LintResult{Dir: dir}
 	var names []string
 	for name, data := range files {
 		p := filepath.Join(dir, name)
 		_ = os.MkdirAll(filepath.Dir(p), 0o755)
+		if target, ok := strings.CutPrefix(data, SymlinkPrefix); ok {
+			// a file entry of the form SymlinkPrefix+target is created as a symbolic link
+			_ = os.Remove(p)
+			_ = os.Symlink(target, p)
+			names = append(names, name)
+			continue
+		}
 		_ = os.WriteFile(p, []byte(data), 0o644)
 		names = append(names, name)
 	}
